@@ -54,7 +54,7 @@ def main():
     for kind, want, lst in (('breaking', 1, variants.BREAKING), ('preserving', 0, variants.PRESERVING),
                             ('undecided', 2, variants.UNDECIDED), ('preserving', 0, variants.C13_FRONTEND_PRESERVING)):
         for vid, props, edits in lst:
-            if vid.startswith(('c13-', 'p13-', 'u13-')) and vid not in FRONT_END_BLIND:
+            if vid.startswith(('c13-', 'p13-', 'u13-')) and vid not in FRONT_END_BLIND and '-isint-' not in vid:
                 todo.append((kind, want, vid, edits))
     bad = 0
     for kind, want, vid, edits in todo:
@@ -73,7 +73,8 @@ def main():
     return 1 if bad else 0
 
 
-# C13 variants decided by the rules that are not part of the front end (REGISTERS table, BASE_OFFSET_INSTRUCTIONS)
+# C13 variants decided by the rules that are not part of the front end (REGISTERS table, BASE_OFFSET_INSTRUCTIONS; the `-isint-`
+# variants belong to R13.7 in props/c13.py / intlang.py)
 FRONT_END_BLIND = {'c13-fp-dropped', 'c13-s1', 'c13-lhu-missing'}
 
 if __name__ == '__main__':
